@@ -294,7 +294,7 @@ func history(c *common.Ctx, cf *common.CaseFile, r *common.Rand, idx int, script
 	crashDir := ""
 	clu := cluster.New(dir, 3*time.Second)
 	clu.Opts = func(name string, s *litefs.Store) {
-		s.HaltAcquireTimeout = 250 * time.Millisecond
+		s.HaltAcquireTimeout = 400 * time.Millisecond
 		s.HaltLockTTL = 5 * time.Minute // expiry is an explicit event
 		s.HaltLockMonitorInterval = time.Hour
 		if name == "r" {
